@@ -107,7 +107,7 @@ class Replay:
         if r.rc != 0:
             raise RuntimeError("oracle clean build failed:\n" + r.out[-2000:])
         paths = bobrun.query_paths(d, "app")
-        res = {n.split("/")[-1]: bobrun.walk_tree(os.path.join(d, ps["dist"])) for n, ps in paths.items()}
+        res = {n.split("/")[-1]: bobrun.walk_tree(os.path.join(d, ps["dist"])) for n, ps in paths.items() if "dist" in ps}
         shutil.rmtree(d, ignore_errors=True)
         self.clean_cache[key] = res
         return res
